@@ -22,12 +22,12 @@
   offsets −80..250 in 1583..4099, and `iter_eq_spec_yearly_weekno_partial`: YEARLY with BYWEEKNO on the
   complement of D-C01c (any week start, plain BYDAY and BYMONTHDAY allowed).  And `iter_eq_spec_hourly_partial` /
   `iter_eq_spec_hourly_byhour_partial` / `iter_eq_spec_minutely_partial` / `iter_eq_spec_secondly_partial`: HOURLY
-  with or without BYHOUR (`mod_distance_least`: `__mod_distance` is exact), MINUTELY without BYHOUR / BYMINUTE,
+  with or without BYHOUR (`mod_distance_least`: `__mod_distance` is exact), MINUTELY without BYHOUR (with or without BYMINUTE),
   SECONDLY without BYHOUR / BYMINUTE / BYSECOND, through a refinement with skipping (one turn of the loop may
   pass over several periods of the specification; `n` turns = the first `m` periods, `n ≤ m ≤ 24·n` resp.
   `48·n`, `1440·n`, `86400·n`).  All of these are assembled in `iter_eq_spec_supported_partial` over the
   decidable predicate `SupportedBy` (Spec/RRuleSupported.lean; driver op `rrule.supported`).
-  Missing: MINUTELY with BYHOUR / BYMINUTE and SECONDLY with BYHOUR / BYMINUTE / BYSECOND (the reachability
+  Missing: MINUTELY with BYHOUR and SECONDLY with BYHOUR / BYMINUTE / BYSECOND (the reachability
   loops `minutelyLoop` / `secondlyLoop` beyond their first pass are only proved monotone), BYWEEKNO / BYEASTER
   for the other frequencies, nth BYDAY with plain BYDAY (all of it inside D-C01a), BYWEEKNO with BYEASTER or
   nth BYDAY.  Everything else below — including
@@ -465,12 +465,22 @@ theorem iter_eq_spec_hourly_byhour_partial (a : Args) (r : Rule) (ha : HourlyByA
     ∃ m, n ≤ m ∧ m ≤ 48 * n ∧ (iter r n).1 = Spec.RRule.occ a m :=
   iter_eq_spec_hourly_byhour ha h n hle
 
+/-- **`iter_eq_spec`, proved portion, MINUTELY with BYMINUTE** (members 0..59, no BYHOUR): as
+    `iter_eq_spec_hourly_byhour_partial` one unit down (`minutelyLoop` succeeds on its first pass, at the least
+    listed minute of the grid, at most 60 steps); `n ≤ m ≤ 1500·n`. -/
+theorem iter_eq_spec_minutely_byminute_partial (a : Args) (r : Rule) (ma : MinutelyByArgs a) (h : construct a = .ok r)
+    (n : Nat)
+    (hle : (Spec.RRule.startOrd a * 24 + a.dtstart.hh) * 60 + a.dtstart.mm + (1500 * n + 60) * a.interval + 1439 <
+      (maxOrdinal + 1) * 1440) :
+    ∃ m, n ≤ m ∧ m ≤ 1500 * n ∧ (iter r n).1 = Spec.RRule.occ a m :=
+  iter_eq_spec_minutely_byminute ma h n hle
+
 /-- **`iter_eq_spec` for every supported argument set** — the summary of the family theorems above.
     `SupportedBy a f` (Spec/RRuleSupported.lean) is a decidable condition on the arguments alone, the union of
     the proved families: DAILY, WEEKLY (BYSETPOS only with the start on the week start = outside D-C01e),
     YEARLY / MONTHLY with plain BYDAY, MONTHLY / YEARLY / YEARLY+BYMONTH with nth BYDAY only (= outside D-C01a),
     YEARLY with BYEASTER −80..250 (outside D-C01d), YEARLY with BYWEEKNO outside D-C01c, HOURLY with or
-    without BYHOUR, MINUTELY without BYHOUR / BYMINUTE, SECONDLY without BYHOUR / BYMINUTE / BYSECOND; always
+    without BYHOUR, MINUTELY without BYHOUR (with or without BYMINUTE), SECONDLY without BYHOUR / BYMINUTE / BYSECOND; always
     INTERVAL ≥ 1, a valid start, no zero in BYMONTHDAY.  `inRange` keeps the first `n` turns inside
     datetime's range.  `m = n` for the calendar frequencies.  The driver op `rrule.supported` evaluates
     `family`, so each run of the check records which share of its sampled rules is covered by this theorem
@@ -590,6 +600,10 @@ example : HourlyByArgs { freq := 4, dtstart := dt 2024 1 1 9, interval := 7, byh
 example : ((match construct { freq := 4, dtstart := dt 2024 1 1 9, interval := 7, byhour := some [9, 17] } with
             | .ok r => (iterDT r 4).1 | .error _ => []).map (fun (t : DT) => (t.d, t.hh))) =
     [(1, 9), (3, 17), (8, 9), (10, 17)] := by decide +kernel
+-- a MinutelyByArgs instance: every 25 minutes, only at :00 and :30 (gcd(25, 60) = 5: both are reachable from :00)
+example : MinutelyByArgs { freq := 5, dtstart := dt 2024 1 1 9, interval := 25, byminute := some [0, 30] } :=
+  ⟨rfl, by decide, by decide, rfl, rfl, by intro x hx; simp at hx, rfl, ⟨[0, 30], rfl, by decide⟩,
+   by intro x hx; simp at hx⟩
 -- the classifier on three argument sets: a supported one, one inside D-C01a, one with BYHOUR under MINUTELY
 example : family { freq := 0, dtstart := dt 1997 5 12 9, byweekno := some [20], byweekday := some [(0, 0)] }
     = some .yearlyWeekno := by decide +kernel
